@@ -8,5 +8,6 @@ for c in C01 C02 C03 C04 C05 C06 C07 C08 C09 C10 C11 C13 C14 C15 C16 C18 C19 C20
 done
 ./agv controls 2>&1 | grep -v "^ok" | tail -8
 ./agv controls > /dev/null 2>&1 || rc=1
+python3 tools/selfcheck_prop_equiv.py || rc=1
 echo "regress rc=$rc"
 exit $rc
